@@ -58,7 +58,7 @@ def run(module, cfg, scratch, *, workers=16, timeout=900, coverage=True, dump=Fa
         cfg_path = os.path.join(scratch, tag + '.cfg')
         with open(cfg_path, 'w') as fh:
             fh.write(cfg)
-    cmd = ['java', '-XX:+UseParallelGC', '-Xmx' + heap]
+    cmd = ['java', '-XX:+UseParallelGC', '-Xmx' + heap, '-Xss64m']
     if dfs:
         cmd.append('-Dtlc2.tool.queue.IStateQueue=StateDeque')
     cmd += ['-cp', JAR, 'tlc2.TLC', '-workers', str(workers), '-metadir', meta,
